@@ -1,13 +1,16 @@
 """
 C19 — Distributions and entropies inferred from data are the empirical frequencies.
 """
+import json
 import math
+import os
 from fractions import Fraction
 
 import numpy as np
 
 import core
-from driver import q, unq
+import covtrace
+from driver import q, unq, DriverError
 import gen
 from env import import_dit
 
@@ -17,7 +20,11 @@ class C19(object):
     rule = ("symbol sequences of length 1-40 over 1-4 symbols (scalar observations, or vector observations of width 2), "
             "all word lengths L up to min(len, 5), history/future splits, bases linear/2/e, trim on/off; estimators "
             "entropy_0/1/2; binned() with 1-6 bins, both styles, data with ties; non-trivial = at least two distinct "
-            "words, one of them repeated")
+            "words, one of them repeated. Wide observations: 1-6 variables, 1-8 (sometimes up to 40) time steps, so that "
+            "there may be fewer time steps than variables; given to dist_from_timeseries as an array, a list of tuples or a "
+            "list of lists. Sessions: 2-5 calls (distribution_from_data, dist_from_timeseries, counts_from_data, the three "
+            "estimators) one after the other in one fresh process on equal data, mostly with the same word length, every "
+            "call judged exactly like a single call; non-trivial = a non-trivial call preceded by one with the same L")
     tolerances = {'counts and frequencies': 'exact (count / windows, one float division)', 'entropies': 'rtol 1e-9'}
     exhaustive = {'thorough': True}
     modelled = ("digamma comes from SciPy on both sides; binning is decided by the oracle (range, monotonicity, threshold "
@@ -79,10 +86,61 @@ class C19(object):
                 ts = [x * scale for x in ts]
                 c.update({'ts': ts, 'bins': rng.randint(1, 9), 'style': style, 'ties': ties, 'scale': scale})
             yield c
+        # (the two streams below draw after the one above, which therefore yields the same cases as before they existed)
+        # --- wide observations: 1-6 variables per observation and few time steps, so both 'more steps than variables' and
+        #     'fewer steps than variables' occur; dist_from_timeseries gets the observations in each documented form
+        for _ in range(n // 4):
+            w = rng.randint(1, 6)
+            ln = rng.choice([rng.randint(1, 8), rng.randint(1, 8), rng.randint(1, 40)])
+            k = rng.randint(1, 3)
+            data = []
+            for _i in range(ln):
+                if data and rng.random() < 0.45:
+                    data.append(list(rng.choice(data)))      # repeated observations, so that words repeat
+                else:
+                    data.append([rng.randrange(k) for _j in range(w)])
+            L = rng.randint(1, min(ln, 5))
+            kind = rng.choice(['dist', 'cond', 'timeseries', 'timeseries', 'entropy'])
+            if kind == 'timeseries' and ln < 2:
+                kind = 'dist'     # see above: one observation row is a flat series
+            h = rng.randint(0, L)
+            nsym = len(set(tuple(x) for x in data))
+            while kind == 'cond' and nsym ** (L - h) > 20000:
+                h += 1            # counts_from_data is dense in the futures: alphabet ** fLength columns
+            yield {'kind': kind, 'data': data, 'vector': True, 'L': L, 'base': rng.choice(['linear', 2, 'e']),
+                   'trim': rng.random() < 0.7, 'h': h, 'form': rng.choice(['array', 'tuples', 'lists'])}
+        # --- sessions: several calls in one process on equal data
+        for _ in range(n // 3):
+            k = rng.randint(1, 4)
+            ln = rng.randint(2, 30)
+            vector = rng.random() < 0.4
+            if vector:
+                w = rng.randint(2, 3)
+                data = [[rng.randrange(min(k, 2)) for _j in range(w)] for _i in range(ln)]
+            else:
+                data = [[0]]
+                for _i in range(ln - 1):
+                    data.append([data[-1][0] if rng.random() < 0.3 else rng.randrange(k)])
+            L0 = rng.randint(1, min(ln, 4))
+            steps = []
+            for _i in range(rng.randint(2, 5)):
+                Ls = L0 if rng.random() < 0.75 else rng.randint(1, min(ln, 4))
+                steps.append({'kind': rng.choice(['dist', 'timeseries', 'entropy', 'cond']), 'L': Ls,
+                              'base': rng.choice(['linear', 2, 'e']), 'trim': rng.random() < 0.7,
+                              'h': Ls if rng.random() < 0.4 else rng.randint(0, Ls),
+                              'form': rng.choice(['array', 'tuples', 'lists'])})
+            yield {'kind': 'session', 'data': data, 'vector': vector, 'L': max(s['L'] for s in steps), 'base': 'linear',
+                   'trim': True, 'h': 0, 'steps': steps}
 
     def shrink(self, case):
         data = case['data']
-        if len(data) > case['L']:
+        if case['kind'] == 'session':
+            for c in self.shrink_session(case):
+                yield c
+            return
+        # (a single vector-valued observation is a flat series for dist_from_timeseries: never shrink down to it)
+        minlen = max(case['L'], 2 if case['kind'] == 'timeseries' and case['vector'] else 1)
+        if len(data) > minlen:
             for i in range(len(data)):
                 c = dict(case)
                 c['data'] = data[:i] + data[i + 1:]
@@ -92,6 +150,98 @@ class C19(object):
             c['L'] = case['L'] - 1
             c['h'] = min(case['h'], c['L'])
             yield c
+        if case['vector'] and data and len(data[0]) > 2 and 'form' in case:
+            for j in range(len(data[0])):
+                c = dict(case)
+                c['data'] = [x[:j] + x[j + 1:] for x in data]
+                yield c
+
+    def shrink_session(self, case):
+        data, steps = case['data'], case['steps']
+        if len(steps) == 1:
+            c = {k: v for k, v in case.items() if k != 'steps'}
+            c.update(steps[0])
+            yield c
+            return
+        for i in range(len(steps)):
+            c = dict(case)
+            c['steps'] = steps[:i] + steps[i + 1:]
+            c['L'] = max(s['L'] for s in c['steps'])
+            yield c
+        minlen = max(max(s['L'] for s in steps), 2 if case['vector'] and any(s['kind'] == 'timeseries' for s in steps) else 1)
+        if len(data) > minlen:
+            for i in range(len(data)):
+                c = dict(case)
+                c['data'] = data[:i] + data[i + 1:]
+                yield c
+        if len(set(s['L'] for s in steps)) == 1 and steps[0]['L'] > 1:
+            c = dict(case)
+            c['steps'] = [dict(s, L=s['L'] - 1, h=min(s['h'], s['L'] - 1)) for s in steps]
+            c['L'] = steps[0]['L'] - 1
+            yield c
+
+    def run_session(self, case, drv):
+        """Several calls, one after the other, on equal data.  They are made in a forked child process: whatever the calls
+        leave behind in dit's modules can then reach neither another case, nor a shrink of this one, nor its replay - each
+        of these starts from the state of the parent, which never executes a session itself."""
+        if not hasattr(os, 'fork'):
+            return self.session_calls(case, drv)
+        rd, wr = os.pipe()
+        pid = os.fork()
+        if pid == 0:
+            try:
+                os.close(rd)
+                before = set(covtrace.snapshot())
+                try:
+                    res = self.session_calls(case, drv)
+                    msg = {'result': res.__dict__, 'cov': [h for h in covtrace.snapshot() if h not in before]}
+                except DriverError as e:
+                    msg = {'driver': str(e)}
+                except BaseException as e:  # noqa
+                    msg = {'error': '%s: %s' % (type(e).__name__, str(e)[:300])}
+                with os.fdopen(wr, 'w') as f:
+                    json.dump(msg, f, default=str)
+            finally:
+                os._exit(0)
+        os.close(wr)
+        with os.fdopen(rd) as f:
+            raw = f.read()
+        os.waitpid(pid, 0)
+        msg = json.loads(raw) if raw else {'error': 'the process making the calls died'}
+        if 'driver' in msg:
+            raise DriverError(msg['driver'])
+        if 'error' in msg:
+            raise RuntimeError(msg['error'])
+        covtrace.merge([tuple(h) for h in msg['cov']])
+        r = core.Result()
+        r.__dict__.update(msg['result'])
+        return r
+
+    def session_calls(self, case, drv):
+        r = core.Result()
+        steps = case['steps']
+        r.site = 'sequence of calls'
+        r.features = ['kind=session', 'vector=%s' % case['vector'], 'len=%d' % len(case['data']), 'calls=%d' % len(steps)]
+        r.features += sorted(set('then=%s>%s%s' % (a['kind'], b['kind'], '' if a['L'] == b['L'] else '(other L)')
+                                 for a, b in zip(steps, steps[1:])))
+        said = []
+        for i, st in enumerate(steps):
+            sub = {k: v for k, v in case.items() if k != 'steps'}
+            sub.update(st)
+            ri = core.safe_run(self, sub, drv)
+            if ri.nontrivial and any(s['L'] == st['L'] for s in steps[:i]):
+                r.nontrivial = True
+            what = '%s L=%d%s' % (st['kind'], st['L'], ' h=%d' % st['h'] if st['kind'] == 'cond' else '')
+            if ri.bad():
+                where = 'call %d of %d on equal data [%s], after [%s]: ' % (i + 1, len(steps), what, '; '.join(said))
+                r.oracle_fail = where + ri.oracle_fail if ri.oracle_fail else None
+                r.mismatch = where + ri.mismatch if ri.mismatch else None
+                r.site = '%s within a sequence of calls' % ri.site
+                r.detail = {'failing_call': i + 1, 'call': st, 'detail': ri.detail}
+                return r
+            said.append(what)
+        r.detail = {'calls': said}
+        return r
 
     def run(self, case, drv):
         dit = import_dit()
@@ -100,6 +250,8 @@ class C19(object):
         from scipy.special import digamma
         r = core.Result()
         kind = case['kind']
+        if kind == 'session':
+            return self.run_session(case, drv)
         r.site = {'dist': 'distribution_from_data', 'cond': 'counts_from_data', 'timeseries': 'dist_from_timeseries',
                   'entropy': 'entropy_0/1/2', 'binning': 'binned'}[kind]
         data = case['data']
@@ -107,6 +259,10 @@ class C19(object):
         vector = case['vector']
         pydata = [tuple(x) for x in data] if vector else [x[0] for x in data]
         r.features = ['kind=%s' % kind, 'vector=%s' % vector, 'L=%d' % L, 'len=%d' % len(data), 'base=%s' % case['base']]
+        if vector and 'form' in case:
+            width = len(data[0])
+            r.features += ['width=%d' % width, 'steps-vs-variables=%s' % ('fewer' if len(data) < width else
+                                                                           'equal' if len(data) == width else 'more')]
 
         if kind == 'binning':
             return self.run_binning(case, r, binned, drv)
@@ -179,8 +335,12 @@ class C19(object):
             model_c = {(pw(a), pw(b)): c for a, b, c in mc}
             model_h = {pw(a): c for a, c in mh}
             r.detail = {'impl_hist': str(impl_h), 'model_hist': str(model_h)}
-            # oracle: rows add up to the history counts; history counts are the window counts
-            if any(abs(cC[i].sum() - hC[i]) > 0 for i in range(len(hist))):
+            # oracle: counts are whole numbers; rows add up to the history counts; history counts are the window counts
+            frac = [(tuple(hh), float(c)) for hh, c in zip(hist, hC) if not (math.isfinite(c) and c == int(c))]
+            frac += [(tuple(hh), float(c)) for hh, row in zip(hist, cC) for c in row if not (math.isfinite(c) and c == int(c))]
+            if frac:
+                r.oracle_fail = 'the count reported for history %s is %r: not a whole number of windows' % frac[0]
+            elif any(abs(cC[i].sum() - hC[i]) > 0 for i in range(len(hist))):
                 r.oracle_fail = 'conditional counts do not add up to the history counts'
             else:
                 direct = {}
@@ -197,7 +357,14 @@ class C19(object):
 
         if kind == 'timeseries':
             hl = L - 1
-            obs = np.array([list(x) for x in data]) if vector else np.array([x[0] for x in data])
+            form = case.get('form', 'array')
+            r.features.append('observations-as=%s' % form)
+            if vector:
+                obs = {'array': np.array([list(x) for x in data]), 'tuples': [tuple(x) for x in data],
+                       'lists': [list(x) for x in data]}[form]
+            else:
+                obs = {'array': np.array([x[0] for x in data]), 'tuples': [(x[0],) for x in data],
+                       'lists': [x[0] for x in data]}[form]
             d = dist_from_timeseries(obs, history_length=hl, base=case['base'])
             num_ts = len(data[0])
             want = {}
@@ -242,8 +409,8 @@ class C19(object):
                     return r
                 vals[name] = v
                 if not (abs(v - ref) <= 1e-9 * max(1.0, abs(ref))):
-                    r.mismatch = '%s: impl %r, formula on the model counts %r' % (name, v, ref)
-                    r.oracle_fail = '%s = %r, but its defining formula on the window counts gives %r' % (name, v, ref)
+                    r.mismatch = '%s: impl %r, formula on the model counts %r' % (name, v, float(ref))
+                    r.oracle_fail = '%s = %r, but its defining formula on the window counts gives %r' % (name, v, float(ref))
                     break
             r.detail = {'impl': vals, 'counts': cs}
             return r
